@@ -360,6 +360,9 @@ fn strata_of(c: &Case, m: &Mat, i: usize) -> Vec<&'static str> {
     let (p, ln, cs) = &m.indels[i];
     let a = &m.ancestor;
     let mut v = vec!["all"];
+    if *p > 100_000 && a.len() - p - ln > 100_000 {
+        v.push("more_than_100000_shared_bases_on_either_side");
+    }
     if c.hairpin.is_some() {
         v.push("self_complementary_indel_between_inverted_flanks");
     }
@@ -410,6 +413,59 @@ fn check(c: &Case, ctx: &Ctx) -> Outcome {
             return Outcome::Reject(e);
         }
     };
+    check_mat(c, m, ctx)
+}
+
+// ---- one indel between flanks of more than 100 000 bases that all samples share ----
+
+#[derive(Clone, Debug, Serialize, Deserialize)]
+pub struct LongFlankCase {
+    pub seed: u64,
+    pub left: u32,
+    pub right: u32,
+    pub ins_len: u8,
+    pub n_samples: usize,
+    pub carriers: Vec<bool>,
+    pub threads: u8,
+}
+
+fn long_flank_strategy() -> BoxedStrategy<LongFlankCase> {
+    (any::<u64>(), prop_oneof![3 => 100_050u32..112_000, 1 => 2_000u32..100_000], prop_oneof![3 => 100_050u32..112_000, 1 => 2_000u32..100_000], 1u8..=10, 3usize..=5, proptest::collection::vec(any::<bool>(), 3..6), prop::sample::select(vec![1u8, 2, 3, 4]))
+        .prop_map(|(seed, left, right, ins_len, n_samples, carriers, threads)| LongFlankCase { seed, left, right, ins_len, n_samples, carriers, threads })
+        .boxed()
+}
+
+fn check_long_flanks(lc: &LongFlankCase, ctx: &Ctx) -> Outcome {
+    let k = 31usize;
+    let mut x = lc.seed | 1;
+    let mut rnd = |n: usize| -> Vec<u8> { (0..n).map(|_| { x = crate::engine::splitmix64(x); model::BASES[(x >> 36) as usize & 3] }).collect() };
+    let (l, ins, r) = (rnd(lc.left as usize), rnd(lc.ins_len as usize), rnd(lc.right as usize));
+    let anc: Vec<u8> = [l.clone(), ins.clone(), r.clone()].concat();
+    // precondition: (k-1)-mers unique on both strands (random sequence of this length at k = 31: practically always)
+    {
+        let mut set = std::collections::HashSet::with_capacity(anc.len());
+        for i in 0..=(anc.len() - (k - 1)) {
+            let (key, self_rc) = gen::word_key(&anc[i..i + k - 1], false);
+            if self_rc || !set.insert(key) {
+                return Outcome::Reject("a (k-1)-mer recurs in a random sequence of this length".into());
+            }
+        }
+    }
+    let mut cs: Vec<bool> = (0..lc.n_samples).map(|j| lc.carriers[j % lc.carriers.len()]).collect();
+    if cs.iter().all(|b| *b) { cs[0] = false; }
+    if cs.iter().all(|b| !*b) { cs[1] = true; }
+    let p = l.len();
+    let fwd: Vec<Vec<u8>> = cs.iter().map(|del| if *del { [l.clone(), r.clone()].concat() } else { anc.clone() }).collect();
+    let samples: Vec<Sample> = fwd.iter().enumerate().map(|(j, sq)| (format!("g{j}"), vec![if (lc.seed >> j) & 1 == 1 { model::revcomp(sq) } else { sq.clone() }])).collect();
+    let m = Mat { ancestor: anc, indels: vec![(p, ins.len(), cs)], fwd, samples, trunc: None, mixed: None };
+    let c = Case { k, n_samples: lc.n_samples, material: vec![], lead: lc.left as u16, tail: 0, indels: vec![], orient: vec![false], threads: lc.threads, trunc: None, twin: false, hairpin: None, paralog: None, mixed: None };
+    match check_mat(&c, m, ctx) {
+        Outcome::Fail(msg) => Outcome::Fail(format!("flanks of {} and {} bases shared by all samples, indel of {} bases: {}", lc.left, lc.right, lc.ins_len, crate::engine::truncate(&msg, 700))),
+        o => o,
+    }
+}
+
+fn check_mat(c: &Case, m: Mat, ctx: &Ctx) -> Outcome {
     let k = c.k;
     let dir = ctx.case_dir();
     let r: Result<(Vec<usize>, usize), Outcome> = (|| {
@@ -516,7 +572,7 @@ fn check(c: &Case, ctx: &Ctx) -> Outcome {
     })();
     ctx.done(&dir);
     match r {
-        Err(Outcome::Fail(msg)) => Outcome::Fail(format!("k={k} threads={} ancestor={} indels={:?}: {msg}", c.threads, lossy(&m.ancestor), m.indels)),
+        Err(Outcome::Fail(msg)) => Outcome::Fail(format!("k={k} threads={} ancestor={} indels={:?}: {msg}", c.threads, if m.ancestor.len() > 5000 { format!("({} bases)", m.ancestor.len()) } else { lossy(&m.ancestor) }, m.indels)),
         Err(o) => o,
         Ok((matched, planted)) => {
             let found = matched.len();
@@ -567,6 +623,26 @@ fn post(rt: &mut Runtime) {
     // applied to each stratum of the generated population (>= 150 planted indels; observed recall on
     // the unchanged tree is >= 98.8 % in every stratum)
     for (name, (sp, sf)) in STRATA.lock().unwrap().iter() {
+        // small strata: reported only when a recall of 90 % or more is excluded beyond doubt
+        // (P[Bin(n, 0.9) <= found] < 1e-5; on the unchanged tree a stratum loses under 2 % of its indels)
+        let tail: f64 = {
+            let (n, f) = (*sp as usize, *sf as usize);
+            let mut t = 0.0;
+            let mut binom = 1.0f64;
+            for i in 0..=f.min(n) {
+                if i > 0 { binom = binom * (n - i + 1) as f64 / i as f64; }
+                t += binom * 0.9f64.powi(i as i32) * 0.1f64.powi((n - i) as i32);
+            }
+            t
+        };
+        if *name != "all" && *sp >= 5 && *sp < 150 && (*sf as f64) < 0.90 * *sp as f64 && tail < 1e-5 {
+            rt.violations.push(crate::engine::Violation {
+                stage: "aggregate".into(),
+                case: json!({"stratum": name, "planted": sp, "found": sf}),
+                message: format!("stratum {name}: only {sf} of {sp} planted isolated indels were reported (a recall of 90 % has probability {tail:.1e} of giving so few)"),
+                worker: 0,
+            });
+        }
         if *name != "all" && *sp >= 150 && (*sf as f64) < 0.90 * *sp as f64 {
             rt.violations.push(crate::engine::Violation {
                 stage: "aggregate".into(),
@@ -586,13 +662,16 @@ fn post(rt: &mut Runtime) {
     }
 }
 
-const RULE: &str = "generated: ancestor (all insertions present) with unique (k-1)-mers on both strands, 1-3 indels of length 1..min(10,k-1) at least 4k apart and 2k from the ends, carrier sets non-empty and proper over 3-8 samples, in 30% of the multi-indel cases the second indel removes the same sequence from the same carriers as the first (two loci, two records expected), in a seventh of the cases a single indel of a sequence equal to its own reverse complement (AT, GATC, GAATTC, ...) between inverted flanks W..rc(W) with |W| >= k-1 (every (k-1)-mer still occurs once in each sequence as written; the two strands of that locus read alike), in half of the multi-indel cases without twins the k-1 bases before and behind the second indel are those of the first with one substitution each (a transition, or the transversion to the complementary base) at the same distance from the junction (a diverged duplicate of the locus), the union of all derived samples re-checked: a (k-1)-mer may recur only at the same ancestor coordinates (rejections counted), samples randomly reverse-complemented, k in {11,15,21,31}, threads 1-4; in a third of the cases one of >= 4 samples is truncated >= 2k before an indel (neither form present: must be genotyped '.', run with -m 0.4); in an eighth of the cases one of >= 4 samples holds a second record with one indel in its other form (both alleles present: 0/1 or '.', never a plain 0 or 1; run with -m 0.4; that indel is not counted for recall). Oracle per record: before+REF+after (or its reverse complement) occurs in exactly the samples genotyped 0, before+ALT+after in exactly those genotyped 1, '.' iff neither or both; the record matches one planted indel by length and carriers, none twice, none unmatched; aggregate recall >= 90% (checked when >= 200 planted), also within each stratum of >= 150 planted indels (twin pairs, self-complementary indels between inverted flanks, loci with near-copies of the same flanks and among them those with a transition on either side, junction homology >= indel length, no junction homology, carried by exactly half of the samples, singleton carrier, length classes). Non-trivial: >= 1 indel reported.";
+const RULE: &str = "generated: ancestor (all insertions present) with unique (k-1)-mers on both strands, 1-3 indels of length 1..min(10,k-1) at least 4k apart and 2k from the ends, carrier sets non-empty and proper over 3-8 samples, in 30% of the multi-indel cases the second indel removes the same sequence from the same carriers as the first (two loci, two records expected), in a seventh of the cases a single indel of a sequence equal to its own reverse complement (AT, GATC, GAATTC, ...) between inverted flanks W..rc(W) with |W| >= k-1 (every (k-1)-mer still occurs once in each sequence as written; the two strands of that locus read alike), in half of the multi-indel cases without twins the k-1 bases before and behind the second indel are those of the first with one substitution each (a transition, or the transversion to the complementary base) at the same distance from the junction (a diverged duplicate of the locus), the union of all derived samples re-checked: a (k-1)-mer may recur only at the same ancestor coordinates (rejections counted), samples randomly reverse-complemented, k in {11,15,21,31}, threads 1-4; in a third of the cases one of >= 4 samples is truncated >= 2k before an indel (neither form present: must be genotyped '.', run with -m 0.4); in an eighth of the cases one of >= 4 samples holds a second record with one indel in its other form (both alleles present: 0/1 or '.', never a plain 0 or 1; run with -m 0.4; that indel is not counted for recall). Oracle per record: before+REF+after (or its reverse complement) occurs in exactly the samples genotyped 0, before+ALT+after in exactly those genotyped 1, '.' iff neither or both; the record matches one planted indel by length and carriers, none twice, none unmatched; aggregate recall >= 90% (checked when >= 200 planted), also within each stratum of >= 150 planted indels, and in smaller strata when fewer are reported than a recall of 90 % can explain (probability < 1e-5) (twin pairs, self-complementary indels between inverted flanks, loci with near-copies of the same flanks and among them those with a transition on either side, junction homology >= indel length, no junction homology, carried by exactly half of the samples, singleton carrier, length classes). Non-trivial: >= 1 indel reported.";
 
 fn stages(tier: Tier) -> Vec<Box<dyn Stage>> {
-    vec![gen_stage_show("indels", RULE, tier.pick(2400, 24_000), 150, case_strategy, check, |c| match materialise(c) {
-        Ok(m) => json!({"k": c.k, "ancestor": lossy(&m.ancestor), "indels": m.indels.iter().map(|(p, l, cs)| json!({"pos": p, "len": l, "deleted_in": cs})).collect::<Vec<_>>()}),
-        Err(e) => json!({"rejected": e}),
-    })]
+    vec![
+        gen_stage_show("long_shared_flanks", "generated: k = 31, 3-5 genomes that share more than 100000 random bases on either side of one indel of 1-10 bases (a quarter of the flanks shorter: 2000-100000), carriers generated, orientation per sample, threads 1-4. Oracle as in the main stage (one record, right genotypes; counted for recall in the strata 'all' and its length class). Non-trivial: the indel is reported.", tier.pick(14, 80), 3, long_flank_strategy, check_long_flanks, |c| json!({"seed": c.seed, "left": c.left, "right": c.right, "indel_length": c.ins_len, "samples": c.n_samples, "threads": c.threads})),
+        gen_stage_show("indels", RULE, tier.pick(2400, 24_000), 150, case_strategy, check, |c| match materialise(c) {
+            Ok(m) => json!({"k": c.k, "ancestor": lossy(&m.ancestor), "indels": m.indels.iter().map(|(p, l, cs)| json!({"pos": p, "len": l, "deleted_in": cs})).collect::<Vec<_>>()}),
+            Err(e) => json!({"rejected": e}),
+        }),
+    ]
 }
 
 pub fn def() -> PropDef {
